@@ -157,13 +157,8 @@ func encScenario(rt ring.Type, logN int, ch rk.Chain, np, bound int) engine.Scen
 			}
 		}
 		cf.dec = c.Choose(3, "dec")
-		if k := cf.knownClass(); k != "" {
-			// A finding must not mask other violations (the engine keeps at most 200 violating leaves
-			// per worker): the input classes with a known defect are judged, with their own
-			// signature, on the representative leaves of known/enc/* and not again here.
-			c.Skip("input class with a known defect, judged in known/enc/*")
-			return
-		}
+		// (classes with a listed defect are judged everywhere, under their own signature: the engine caps
+		// stored violations per signature, so a finding no longer crowds out other violations)
 		runEnc(c, name, cf)
 	}}
 }
@@ -401,6 +396,12 @@ func runEnc(c *engine.Chooser, name string, cf encCfg) {
 		})
 		if pan != nil {
 			c.Fail(sig("panic"), "%s: %s panicked: %v", cf.String(), entNames[cf.entry], pan)
+			return
+		}
+		if err != nil && cf.pk && cf.degree == 0 {
+			// a public-key encryption has no compressed form: a degree-0 target cannot hold it, and an
+			// error is the documented way to refuse a target
+			c.Cover("rejected", "pk-encryption-into-degree-0-target")
 			return
 		}
 		if err != nil {
